@@ -5,7 +5,7 @@ import OjgVerif.Script.Model
 Values and expression trees travel in postfix (RPN) token form, tokens separated by one space:
 
   values  `n` null · `t` `f` · `N` Nothing · `i<int>` · `d<m>:<e>` (m·2^e) `dinf` `d-inf` `dnan` ·
-          `s<hex>` string · `r<hex>` regex pattern · `a<k>` array of the k values below ·
+          `s<hex>` string · `r<hex>` regex pattern · `x<ty>,<cmp>,<id>,<core>` typed Go value (`Val.ext`) · `a<k>` array of the k values below ·
           `o<k>` object of the k (string key, value) pairs below
   trees   `c` constant of the value below · `p<@|$>[:c<hex>|:n<int>|:w]*` path ·
           `u<op>` / `b<op>` application to the one / two trees below
@@ -48,6 +48,20 @@ def parseFlt (s : String) : Option Flt :=
       | some m, some e => some (.fin m e)
       | _, _ => none
     | _ => none
+
+/-- normalisation class of a typed value: `-` none, `si<int>` int…int32, `ui<int>` uint…uint64, `f<flt>` float32,
+`gb0|gb1` gen.Bool, `gi<int>` gen.Int, `gd<flt>` gen.Float, `gs<hex>` gen.String -/
+def parseCore (s : String) : Option Core :=
+  if s = "-" then some .none
+  else if s.startsWith "si" then ((s.drop 2).toString.toInt?).map .sint
+  else if s.startsWith "ui" then ((s.drop 2).toString.toInt?).map .uint
+  else if s = "gb0" then some (.gbool false)
+  else if s = "gb1" then some (.gbool true)
+  else if s.startsWith "gi" then ((s.drop 2).toString.toInt?).map .gint
+  else if s.startsWith "gd" then (parseFlt (s.drop 2).toString).map .gflt
+  else if s.startsWith "gs" then (ofHex (s.drop 2).toString).map .gstr
+  else if s.startsWith "f" then (parseFlt (s.drop 1).toString).map .f32
+  else none
 
 def parseFrags : List String → Option (List Frag)
   | [] => some []
@@ -108,6 +122,14 @@ def stepTok (st : List Cell) (tok : String) : List Cell :=
       | some (kvs, st') => .v (.obj kvs) :: st'
       | none => [.bad]
     | none => [.bad]
+  else if tok.startsWith "x" then
+    match rest.splitOn "," with
+    | [ty, cmp, id, core] =>
+      match ty.toNat?, id.toNat?, parseCore core with
+      | some ty, some id, some c =>
+        if cmp = "0" || cmp = "1" then .v (.ext ⟨ty, cmp = "1", id, c⟩) :: st else [.bad]
+      | _, _, _ => [.bad]
+    | _ => [.bad]
   else if tok.startsWith "p" then
     match rest.splitOn ":" with
     | hd :: fr =>
@@ -174,6 +196,16 @@ def renderFlt : Flt → String
   | .inf true => "-inf"
   | .nan => "nan"
 
+def renderCore : Core → String
+  | .none => "-"
+  | .sint i => "si" ++ toString i
+  | .uint i => "ui" ++ toString i
+  | .f32 f => "f" ++ renderFlt f
+  | .gbool b => if b then "gb1" else "gb0"
+  | .gint i => "gi" ++ toString i
+  | .gflt f => "gd" ++ renderFlt f
+  | .gstr s => "gs" ++ toHexF s
+
 mutual
   /-- the token form again (so that the harness can feed a model value back into a tree) -/
   def renderVal : Val → String
@@ -185,6 +217,7 @@ mutual
     | .flt f => "d" ++ renderFlt f
     | .str s => "s" ++ toHexF s
     | .rx s => "r" ++ toHexF s
+    | .ext e => "x" ++ toString e.ty ++ "," ++ (if e.cmp then "1" else "0") ++ "," ++ toString e.id ++ "," ++ renderCore e.core
     | .arr xs => renderVals xs ++ "a" ++ toString xs.length
     | .obj kvs => renderKvs kvs ++ "o" ++ toString kvs.length
   def renderVals : List Val → String
